@@ -201,6 +201,8 @@ class RFrame:
             return self.empty(interp)
         if name == "loc":
             return _Loc(self)
+        if name == "iloc":
+            return _ILoc(self)
         if name == "join":
             def join(other, *a, **k):
                 if not isinstance(other, RFrame):
@@ -426,6 +428,18 @@ class _Loc:
             f.mutated = True
             return
         raise Unsupported(".loc[] write other than [mask, column] or [mask]", node)
+
+
+class _ILoc:
+    """positional selection of rows: only the slices that plain subscripts also take ([:-1], [:0]) and boolean masks"""
+
+    def __init__(self, frame):
+        self.frame = frame
+
+    def sym_getitem(self, interp, key, node):
+        if isinstance(key, slice) or isinstance(key, RMask):
+            return self.frame.sym_getitem(interp, key, node)
+        raise Unsupported("DataFrame.iloc with this key (row-wise model)", node)
 
 
 class RMask:
